@@ -7,7 +7,7 @@ use num::{Signed, ToPrimitive};
 
 pub struct C01;
 
-const SMALL: [&str; 18] = ["0", "1", "2", "3", "7", "10", "-3", "-0.5", "0.5", ".25", "1.5e1", "2e-1", "1e2", "50%", "12.5%", "1.25e1", "12.345e2", "-2.5e-1%"];
+const SMALL: [&str; 22] = ["0", "1", "2", "3", "7", "10", "-3", "-0.5", "0.5", ".25", "1.5e1", "2e-1", "1e2", "50%", "12.5%", "1.25e1", "12.345e2", "-2.5e-1%", "50", "12.5", "10%", "-2.5e-1"];
 
 fn big_ladder() -> Vec<String> {
     vec![
@@ -172,7 +172,7 @@ impl Prop for C01 {
         "C01"
     }
     fn rule(&self) -> String {
-        "every fully parenthesised expression tree over the literal ladder (18 small literals incl. negative, fractional, exponent (also with an exponent smaller than the number of decimals) and percent forms; 5 big ones: 40/300-digit integers, 30-digit fraction, 1e40, 1e-40) x {+ - * / ^}: all pairs over the full ladder, all 3-leaf trees over 17 literals, all 4-leaf trees over 6 literals (thorough: 5-leaf over 4 literals); exponent operands limited to integers |n|<=6. Non-trivial = the reference evaluator defines a value or prescribes an error AND the tree contains >=1 operator; distinct = distinct rendered strings".into()
+        "every fully parenthesised expression tree over the literal ladder (22 small literals incl. each percent literal's plain twin (`50%` and `50`, `10%` and `10`),  negative, fractional, exponent (also with an exponent smaller than the number of decimals) and percent forms; 5 big ones: 40/300-digit integers, 30-digit fraction, 1e40, 1e-40) x {+ - * / ^}: all pairs over the full ladder, all 3-leaf trees over 19 literals, all 4-leaf trees over 6 literals (thorough: 5-leaf over 4 literals); exponent operands limited to integers |n|<=6. Non-trivial = the reference evaluator defines a value or prescribes an error AND the tree contains >=1 operator; distinct = distinct rendered strings".into()
     }
     fn assumptions(&self) -> Vec<String> {
         vec![
@@ -191,7 +191,7 @@ impl Prop for C01 {
         gen_trees("pairs", 2, &all, sink);
         // 3-leaf trees: the first 15 small literals, one whose exponent is smaller than its number
         // of decimals, and one big rung
-        let l17: Vec<String> = all.iter().take(15).cloned().chain(["1.25e1".to_string(), "1e40".to_string()]).collect();
+        let l17: Vec<String> = all.iter().take(15).cloned().chain(["1.25e1".to_string(), "1e40".to_string(), "50".to_string(), "10%".to_string()]).collect();
         gen_trees("trees3", 3, &l17, sink);
         // integer powers beyond the tree families' |n| <= 6 (binary powers
         // and their neighbours, both signs), on bases of every literal kind
